@@ -8,9 +8,9 @@ use refmodel::tcodec::{Proto, decode_exact, encode};
 use refmodel::tval::{Gen, GenCfg, TT, TVal, directed_values};
 use serde_json::{Value, json};
 
-use crate::codecs::{ALL_BK, ALL_WP, BK, WP, read_seq, write_seq};
-use crate::interp::Ops;
-use crate::oracle::diff;
+use pcodec::codecs::{ALL_BK, ALL_WP, BK, WP, read_seq, write_seq};
+use pcodec::interp::Ops;
+use pcodec::oracle::diff;
 
 pub struct C01;
 
